@@ -101,7 +101,13 @@ fn parse_advanced_quantity<'i>(bp: &mut BlockParser<'_, 'i>) -> Option<ParsedQua
 
     let value_tokens = bp.consume_while(|t| !matches!(t, T![word]));
 
-    if value_tokens.is_empty() || value_tokens.last().unwrap().kind != T![ws] {
+    // the value and the unit have to be separated by whitespace; block
+    // comments around that whitespace do not count
+    let last_sep = value_tokens
+        .iter()
+        .rev()
+        .find(|t| t.kind != T![block comment]);
+    if !matches!(last_sep, Some(t) if t.kind == T![ws]) {
         return None;
     }
     let value_tokens = {
